@@ -465,15 +465,17 @@ impl RunState {
     }
 
     fn jsr(&mut self, instr: u16) {
-        *self.reg_mut(7) = self.pc;
-        if instr & 0x800 == 0 {
+        // Target must be read before linking, in case base register is R7
+        let target = if instr & 0x800 == 0 {
             // reg
             let br = (instr >> 6) & 0b111;
-            self.pc = self.reg(br)
+            self.reg(br)
         } else {
             // offs
-            self.pc = self.pc.wrapping_add(Self::s_ext(instr, 11))
-        }
+            self.pc.wrapping_add(Self::s_ext(instr, 11))
+        };
+        *self.reg_mut(7) = self.pc;
+        self.pc = target;
     }
 
     fn ld(&mut self, instr: u16) {
